@@ -1,6 +1,9 @@
 //! rv-sbor: runtime monitors for the SBOR codec properties C20-C23.
+mod c22;
+mod c23;
 mod codec;
 mod flav;
+mod schemagen;
 mod typed;
 mod wire;
 
@@ -25,6 +28,10 @@ fn main() {
     let report = match (args.prop.as_str(), &replay_doc) {
         ("C20", None) => codec::run(&args, codec::Which::C20),
         ("C21", None) => codec::run(&args, codec::Which::C21),
+        ("C22", None) => c22::run(&args),
+        ("C22", Some(doc)) => c22::replay(&args, doc),
+        ("C23", None) => c23::run(&args),
+        ("C23", Some(doc)) => c23::replay(&args, doc),
         ("C20", Some(doc)) => codec::replay(&args, codec::Which::C20, doc),
         ("C21", Some(doc)) => codec::replay(&args, codec::Which::C21, doc),
         _ => {
